@@ -220,17 +220,26 @@ def run(specs, n, seed, label):
             chunk = []
     for sp in specs:
         for _ in range(n):
-            args = [gen(rng, t, sp.small_ints or sp.name in getattr(S, 'SMALL_INTS', ())) for _, t in sp.params]
-            ds = [a for a, (_, t) in zip(args, sp.params) if t[0] == "dict" and a]
+            gparams = getattr(sp, "gen_params", None)        # (unused parameters still get an argument in Python)
+            if gparams is None:
+                import inspect
+                gparams = [(p, dict(sp.params).get(p, P.Lst(P.INT))) for p in inspect.signature(sp.fn).parameters
+                           if p not in sp.fixed] if sp.unused else sp.params
+            args = [gen(rng, t, sp.small_ints or sp.name in getattr(S, 'SMALL_INTS', ())) for _, t in gparams]
+            if sp.assume:
+                args = [(a or gen(rng, t, True) or a) if sp.assume.get(p) else a for a, (p, t) in zip(args, gparams)]
+                if any(sp.assume.get(p) and not a for a, (p, t) in zip(args, gparams)):
+                    continue
+            ds = [a for a, (_, t) in zip(args, gparams) if t[0] == "dict" and a]
             if ds and rng.random() < 0.6:      # make `k in d` / d[k] succeed often
-                args = [rng.choice(list(ds[0])) if t == ds_key_type(sp) else a for a, (_, t) in zip(args, sp.params)]
+                args = [rng.choice(list(ds[0])) if t == ds_key_type(sp) else a for a, (_, t) in zip(args, gparams)]
             kw = dict(sp.fixed)
             try:
                 import copy
                 called = copy.deepcopy(args)
                 res = sp.fn(*called, **kw)
                 if sp.outparams:       # the result, then the new values of the mutated arguments
-                    after = dict(zip([p for p, _ in sp.params], called))
+                    after = dict(zip([p for p, _ in gparams], called))
                     res = tuple(([] if sp.ret == P.NONE else [res]) + [after[p] for p in sp.outparams])
                     if len(res) == 1:
                         res = res[0]
@@ -242,8 +251,15 @@ def run(specs, n, seed, label):
                 if not sp.monadic:
                     exp = {"err-but-translated-as-pure": type(e).__name__}
             expected.append((sp.name, args, exp))
-            chunk.append("toJ (%s)" % " ".join([sp.name] + (["%d" % S.FUEL] if sp.fuel else [])
-                                               + [to_lean(a, t) for a, (_, t) in zip(args, sp.params)]))
+            # the unknown set order: identity / reverse / a rotation that depends on the site — the Python result must
+            # be the same SET whichever the translated function is given
+            orders = ["(fun _ {_} l => l)", "(fun _ {_} l => l.reverse)", "(fun k {_} l => l.drop ((k + 1) % (l.length + 1)) ++ l.take ((k + 1) % (l.length + 1)))"]
+            unused = set(sp.unused)
+            chunk.append("toJ (%s)" % " ".join(
+                [sp.name] + (["%d" % S.FUEL] if sp.fuel else [])
+                + ([orders[len(expected) % 3]] if sp.set_order else [])
+                + [o.name[:-2] for o in sp.opaque]
+                + [to_lean(a, t) for a, (p, t) in zip(args, gparams) if p not in unused]))
             rets.append(sp.lean_ret())
             if len(chunk) >= 40:
                 flush()
@@ -294,8 +310,19 @@ def sample_specs():
                     out.append(P.Spec(m, "%s_%s" % (name, mname), ps, t_of(h["return"])))
         if name.startswith("s_") and callable(fn):
             h = typing.get_type_hints(fn)
-            params = [(p, t_of(h[p])) for p in fn.__code__.co_varnames[:fn.__code__.co_argcount]]
-            out.append(P.Spec(fn, name, params, t_of(h["return"])))
+            unused = getattr(S, "UNUSED", {}).get(name, ())
+            params = [(p, P.UNUSED if p in unused else t_of(h[p]))
+                      for p in fn.__code__.co_varnames[:fn.__code__.co_argcount]]
+            opq = []
+            for hn in getattr(S, "OPAQUE", {}).get(name, ()):
+                hf = getattr(S, hn)
+                hh = typing.get_type_hints(hf)
+                hp = [(p, t_of(hh[p])) for p in hf.__code__.co_varnames[:hf.__code__.co_argcount]]
+                opq.append(P.Opaque(hf, hn + "_O", hp, t_of(hh["return"]), monadic=True))
+            sp = P.Spec(fn, name, params, t_of(h["return"]), opaque=opq, assume=getattr(S, "ASSUME", {}).get(name),
+                        set_order=name.startswith("s_ord_"))
+            sp.gen_params = [(p, t_of(h[p])) for p in fn.__code__.co_varnames[:fn.__code__.co_argcount]]
+            out.append(sp)
     return out
 
 
@@ -323,7 +350,7 @@ def property_specs():
     """the Spec lists the registered checks translate (their `translations()` argument), re-built here by name"""
     import importlib
     out = {}
-    for pid in ("c08", "c01", "c02", "c03", "c09", "c10", "c13", "c14", "c17", "c18"):
+    for pid in ("c08", "c01", "c02", "c03", "c07", "c09", "c10", "c13", "c14", "c17", "c18"):
         try:
             mod = importlib.import_module("harness." + pid)
         except Exception:      # noqa: BLE001
